@@ -34,6 +34,7 @@ def _traj(draw):
     peaked = draw(st.booleans())
     peak = draw(st.integers(0, max(0, n - 1))) if n else 0
     h = draw(st.floats(-10.0, 10.0))
+    # (distances stay non-decreasing: the statement quantifies over such trajectories, and the helpers bisect on that order)
     for i in range(n):
         if i:
             d += draw(st.one_of(st.just(0.0), st.floats(0.0, 500.0), st.sampled_from([1.0, 100.0, 300.0])))
@@ -49,8 +50,11 @@ def _traj(draw):
         kind = draw(st.sampled_from(["dist", "dist", "time", "time-near", "time-near", "vel", "flag"]))
         if kind == "dist":
             u = draw(st.sampled_from(DIST))
-            mode = draw(st.sampled_from(["on", "between", "below", "beyond", "any"]))
-            if n and mode == "on":
+            mode = draw(st.sampled_from(["on", "on", "between", "between", "below", "below", "beyond", "beyond", "any", "any", "nonfinite"]))
+            if mode == "nonfinite":
+                # no row is "at least" NaN, every row is at least -inf, none reaches +inf (written as strings: plain JSON)
+                q = {"kind": "dist", "unit": u, "ft": draw(st.sampled_from(["nan", "nan", "inf", "-inf"]))}
+            elif n and mode == "on":
                 i = draw(st.integers(0, n - 1))
                 q = {"kind": "dist", "unit": u, "on": i, "ft_on": rows[i][0]}
             elif n and mode == "between":
@@ -81,6 +85,8 @@ def _traj(draw):
             else:
                 tq = draw(st.floats(0.0, max(1.0, t * 1.2)))
             q = {"kind": kind, "t": tq}
+            if kind == "time" and draw(st.integers(0, 11)) == 0:
+                q["t"] = draw(st.sampled_from(["nan", "inf"]))
             if kind == "time-near":
                 q["dev"] = draw(st.one_of(st.sampled_from([0.0, 1.0, 0.5, 0.25]), st.floats(0.0, 10.0)))
         elif kind == "vel":
@@ -139,7 +145,7 @@ def _check_queries(r, traj, queries, inside_counter, hit=None):
             elif "on" in q:  # the row was removed by an in-place edit: query its former distance
                 val = pb.Distance.Foot(q.get("ft_on", 0.0)) >> u
             else:
-                val = pb.Distance.Foot(q["ft"]) >> u
+                val = pb.Distance.Foot(float(q["ft"])) >> u
             exp = _first(lambda row: (row.distance >> u) >= val, traj)
             got = H.find_index_of_point_for_distance(hit, val, u)
             if got != exp:
@@ -173,7 +179,7 @@ def _check_queries(r, traj, queries, inside_counter, hit=None):
             if 0 < exp < n:
                 inside_counter[0] += 1
         elif k == "time":
-            tq = q["t"]
+            tq = float(q["t"])
             exp = _first(lambda row: row.time >= tq, traj)
             got = H.find_index_for_time_point(hit, tq, True)
             if got != exp:
@@ -281,6 +287,8 @@ def check(case):
                 break
         r.label("edited-in-place")
     r.nontrivial = n >= 3 and inside[0] > 0
+    if any(isinstance(q.get("ft", q.get("t")), str) for q in case["queries"]):
+        r.label("non-finite-query")
     if any(case["rows"][i][0] == case["rows"][i + 1][0] for i in range(n - 1)):
         r.label("repeated-distance")
     if any(case["rows"][i][1] == case["rows"][i + 1][1] for i in range(n - 1)):
